@@ -157,6 +157,8 @@ pub enum Op {
     Get { k: u32 },
     Contains { k: u32 },
     Iter,
+    /// create an iterator, take its first item, advance the clock, take the rest
+    IterAdvance { ns: u64 },
     Invalidate { k: u32 },
     InvalidateAll,
     InvalidateIf { p: Pred },
@@ -171,6 +173,7 @@ impl Op {
             Op::Get { k } => format!("get {}", k),
             Op::Contains { k } => format!("contains {}", k),
             Op::Iter => "iter".into(),
+            Op::IterAdvance { ns } => format!("iter_advance {}", ns),
             Op::Invalidate { k } => format!("invalidate {}", k),
             Op::InvalidateAll => "invalidate_all".into(),
             Op::InvalidateIf { p } => format!("invalidate_if {}", p.name()),
@@ -192,6 +195,7 @@ impl Op {
             "get" => Op::Get { k: num()? as u32 },
             "contains" => Op::Contains { k: num()? as u32 },
             "iter" => Op::Iter,
+            "iter_advance" => Op::IterAdvance { ns: num()? },
             "invalidate" => Op::Invalidate { k: num()? as u32 },
             "invalidate_all" => Op::InvalidateAll,
             "invalidate_if" => Op::InvalidateIf {
@@ -209,6 +213,7 @@ impl Op {
             Op::Get { .. } => "get",
             Op::Contains { .. } => "contains_key",
             Op::Iter => "iter",
+            Op::IterAdvance { .. } => "iter",
             Op::Invalidate { .. } => "invalidate",
             Op::InvalidateAll => "invalidate_all",
             Op::InvalidateIf { .. } => "invalidate_entries_if",
